@@ -236,3 +236,9 @@ def corpus(tier, rng, assigned_only=True):
         f = fmt(t)
         if f not in seen: seen.add(f); uniq.append(t)
     return uniq
+
+
+# binary32 values a half-width item can be made to hold through the item API although no half denotes them (too large, too small, in between):
+# what cbor_encode_half writes for them is not determined by the RFC, but it is three bytes, and the item is not modified
+ODD_HALF_BITS = [0x47C35000, 0x477FF000, 0x47800000, 0x4048F5C3, 0x3DCCCCCD, 0x15F79688, 0x00800000, 0x33000000, 0x33800001, 0x33C00000, 0x7149F2CA, 0xC7C35000, 0x7F7FFFFF,
+                 0xFF7FFFFF, 0x00000001, 0x80000001, 0x38800001, 0x387FFFFF, 0x477FE001, 0xC048F5C3]
